@@ -36,7 +36,6 @@ Section SolveAll.
   Hypothesis Hfe : fm_endo fm = endo_nums d.
   Hypothesis Hfl : fm_lags fm = Z.of_nat (lags d).
   Hypothesis Hfd : fm_leads fm = Z.of_nat (leads d).
-  Hypothesis Hmax : 0 < max_iter o.
   Hypothesis Hmm : min_iter o <= max_iter o.
   Hypothesis Hshape : forall idx v, shape n m v -> shape n m (evf idx v).
   Hypothesis Hec : w_ec (errors o) = Some ec.
@@ -82,11 +81,11 @@ Section SolveAll.
     { rewrite (t_guard_feasible fm d n p Hfl Hfd Hp), Hfeas. reflexivity. }
     assert (Haft : forall em cf k w, no_hook num (Z.of_nat p) em cf k w = (w, None)) by reflexivity.
     destruct (sim_run num sub absf ltb isfin zero evf ev (no_hook num) fm d o (Z.of_nat p) p n m ec v0 Haft
-                (Hshape (Z.of_nat p + 1)) Hp Hm Hg Hchk Hend Hfe N 0%nat (lg ++ [EvBefore (Z.of_nat p)]) (-1) Hs0 Hchk0 Hrun)
+                (Hshape (Z.of_nat p + 1)) Hp Hm Hg Hchk Hend Hfe N 0%nat (lg ++ [EvBefore (Z.of_nat p)]) 0 Hs0 Hchk0 Hrun)
       as (i & x & k & lg' & Hloop & Hx & Hsim).
     cbn [FSolveSim.iterv] in Hloop, Hsim. unfold FSolveSim.chk in Hloop, Hsim. cbn [FSolveSim.iterv] in Hloop, Hsim.
     change (Z.of_nat 1) with 1 in Hsim.
-    assert (HN : (N =? 0)%nat = false) by (apply Nat.eqb_neq; lia). rewrite HN in Hsim.
+    assert (HN : (if (N =? 0)%nat then 0 else 0) = 0) by (destruct (N =? 0)%nat; reflexivity). rewrite HN in Hsim.
     exists (iterv p v0 i), (st_eqb x Solved), k, lg'. split; [|split].
     - unfold period_args.
       rewrite (t_solve_t_spec num sub absf ltb isfin zero evf fm d o (Z.of_nat p + 1) p n m ec v Hs Hm Hp Hchk Hend Hfe
